@@ -425,6 +425,48 @@ func runForced(family string, dir string, seed uint64) forcedResult {
 		e.searcher("R2", q)
 		s2 := c.RunUntil("R2", "", 0)
 		res.Threads = append(res.Threads, e.classify("R2", q, "v1", []string{"v0"}, s2))
+	case "w2c":
+		// mixed snapshots between two readers on one object (limited cache: the writer's object has
+		// been pruned): the newer reader has cached the vector of the inserted point P as a
+		// neighbour but not yet its node; the older reader, whose handle is now stored, visits P and
+		// reads its node from its own snapshot: "failed to get node for neighbours: not found".
+		e.sh.Close()
+		e.open(1)
+		found := false
+		for j := 2; j <= 14 && !found; j++ {
+			i := 20 + e.rng.Intn(n-40)
+			px, py := float32(10*i)+5, float32(0.25)
+			pid, pdoc := e.newPoint(px, py, 1000000)
+			q := QSpec{Kind: "vamana", X: px, Y: py, K: 1}
+			on, nn, wn := fmt.Sprintf("Rold%d", j), fmt.Sprintf("Rnew%d", j), fmt.Sprintf("W%d", j)
+			c.Spawn(wn, func() any {
+				if err := e.sh.InsertPoints([]models.Point{{Id: pid, Data: encodeDoc(pdoc)}}); err != nil {
+					return err.Error()
+				}
+				return ""
+			})
+			e.searcher(on, q)
+			e.searcher(nn, q)
+			must(c.RunUntil(on, "R.begin", 1), "arrived")
+			must(c.RunUntil(wn, "", 0), "done")
+			sNew := c.RunUntil(nn, "visit", j)
+			sOld := c.RunUntil(on, "", 0)
+			if sNew.Kind == "arrived" {
+				c.RunUntil(nn, "", 0)
+			}
+			th := c.byName[on]
+			if sOld.Kind == "done" && th.res.Panic == "" {
+				if so, ok := th.res.Val.(searchOut); ok && strings.Contains(so.Err, "not found") {
+					found = true
+					res.Extra["iteration"] = j
+					e.notes = append(e.notes, on+" error: "+so.Err)
+					res.Threads = append(res.Threads, threadReport{Thread: "R", Class: "item-not-found", Detail: normErr(so.Err)})
+				}
+			}
+		}
+		if !found {
+			res.Threads = append(res.Threads, threadReport{Thread: "R", Class: "ok"})
+		}
 	case "dangling":
 		// the documents a search returns are slices into bbolt's memory map; they are read by the
 		// caller after the read transaction has ended. A later batch that makes the file outgrow
